@@ -233,3 +233,44 @@ fn c08_alias_empty() {
 // (it needs scale*(1-eps) <= scale for a symbolic scale); harnesses over symbolic float weights ended in an
 // unwinding failure / timeout.  The seeded float-only changes (leftover sentinel alias, lossy clone) are
 // therefore not detected; see DESIGN.md section 0.7.
+
+// ------------------------------------------------------------------------------------------
+// vectors longer than W::MAX (narrow weight types): MAX / len is 0, so every non-zero weight is "greater than
+// MAX/len" (InvalidWeight) and an all-zero vector is InsufficientNonZero; the length itself is valid input
+// ------------------------------------------------------------------------------------------
+
+//@ id: c08_alias_i8_l128
+//@ prop: C08
+//@ tier: quick
+//@ cap: 900
+//@ funcs: WeightedAliasIndex::<i8>::new (validation with len > i8::MAX: try_from_u32_lossy fails, max_weight_size = 0)
+//@ bounds: every i8 weight vector of length 128
+#[kani::proof]
+#[kani::unwind(131)]
+fn c08_alias_i8_l128() {
+    let ws: [i8; 128] = kani::any();
+    let mut allzero = true;
+    let mut i = 0;
+    while i < 128 {
+        if ws[i] != 0 {
+            allzero = false;
+        }
+        i += 1;
+    }
+    let r = WeightedAliasIndex::<i8>::new(mk_vec(&ws));
+    match r {
+        Ok(d) => {
+            vassert!(false, "alias new: accepted a vector longer than W::MAX with a non-representable length");
+            core::mem::forget(d);
+        }
+        Err(e) => {
+            if allzero {
+                vassert!(e == WErr::InsufficientNonZero, "alias new: all-zero weights must give InsufficientNonZero (also for len > W::MAX)");
+            } else {
+                vassert!(e == WErr::InvalidWeight, "alias new: a weight above MAX/len (= 0 for len > W::MAX) or negative must give InvalidWeight");
+            }
+        }
+    }
+    kani::cover!(allzero, "all zero");
+    kani::cover!(!allzero, "some non-zero weight");
+}
